@@ -58,6 +58,11 @@ static void canon_str_field (OutBuf *o, const char *name, const char *v)
 }
 
 static int n_fixed_mismatch;
+static int fixed_size_of_code (int code)
+{
+  switch (code) { case 'y': return 1; case 'n': case 'q': return 2; case 'b': case 'i': case 'u': return 4; case 'x': case 't': case 'd': return 8; }
+  return 0;
+}
 
 static void canon_iter (DBusMessageIter *it, OutBuf *o)
 {
@@ -166,8 +171,107 @@ static void canon_iter (DBusMessageIter *it, OutBuf *o)
         default:
           ob_printf (o, "?%d", t);
         }
-      dbus_message_iter_next (it);
+      {
+        /* dbus_message_iter_has_next() must say what the step itself then finds */
+        dbus_bool_t hn = dbus_message_iter_has_next (it), stepped = dbus_message_iter_next (it);
+        if (!hn != !stepped || !stepped != (dbus_message_iter_get_arg_type (it) == DBUS_TYPE_INVALID)) n_fixed_mismatch++;
+      }
     }
+}
+
+/* ---- the varargs read path: dbus_message_get_args() on bodies it can express ---------------------------------
+ * A body is "flat" if every top-level argument is a basic value (no unix fd) or an array of fixed-size basic values
+ * or of strings/object paths/signatures, and there are at most 8 of them.  Such a body is read a second time with
+ * dbus_message_get_args() and rendered like canon_iter() renders it; any difference is counted.  The variable
+ * argument list is passed as machine words (type codes and pointers only), which is what the x86-64 calling
+ * convention does with them anyway. */
+static int n_getargs_mismatch;
+#define FLAT_MAX 8
+static int flat_sig (const char *sig, char kinds[FLAT_MAX][2])
+{
+  int n = 0;
+  while (*sig)
+    {
+      if (n == FLAT_MAX) return -1;
+      if (*sig == 'a')
+        {
+          if (!sig[1] || !strchr ("ybnqiuxtdsog", sig[1])) return -1;
+          kinds[n][0] = 'a'; kinds[n][1] = sig[1]; sig += 2;
+        }
+      else
+        {
+          if (!strchr ("ybnqiuxtdsog", *sig)) return -1;
+          kinds[n][0] = *sig; kinds[n][1] = 0; sig += 1;
+        }
+      n++;
+    }
+  return n;
+}
+
+static void render_basic (OutBuf *o, int t, const void *p)
+{
+  switch (t)
+    {
+    case 'y': ob_printf (o, "y:%u", *(const unsigned char *) p); break;
+    case 'b': { dbus_uint32_t v; memcpy (&v, p, 4); ob_printf (o, "b:%u", v); break; }
+    case 'n': { dbus_int16_t v; memcpy (&v, p, 2); ob_printf (o, "n:%d", v); break; }
+    case 'q': { dbus_uint16_t v; memcpy (&v, p, 2); ob_printf (o, "q:%u", v); break; }
+    case 'i': { dbus_int32_t v; memcpy (&v, p, 4); ob_printf (o, "i:%d", v); break; }
+    case 'u': { dbus_uint32_t v; memcpy (&v, p, 4); ob_printf (o, "u:%u", v); break; }
+    case 'x': { dbus_int64_t v; memcpy (&v, p, 8); ob_printf (o, "x:%lld", (long long) v); break; }
+    case 't': { dbus_uint64_t v; memcpy (&v, p, 8); ob_printf (o, "t:%llu", (unsigned long long) v); break; }
+    case 'd': { dbus_uint64_t v; memcpy (&v, p, 8); ob_printf (o, "d:%016llx", (unsigned long long) v); break; }
+    case 's': case 'o': case 'g':
+      { const char *v = *(const char * const *) p; ob_printf (o, "%c:", t); if (v) ob_hex (o, (const unsigned char *) v, strlen (v)); else ob_puts (o, "NULL"); break; }
+    }
+}
+
+/* returns 0 = not applicable, 1 = agrees, 2 = differs, 3 = get_args reported out-of-memory */
+static int getargs_crosscheck (DBusMessage *m, const char *body_text, size_t body_len)
+{
+  char kinds[FLAT_MAX][2]; long W[4 * FLAT_MAX + 2]; int nw = 0, n, i, res;
+  union { dbus_uint64_t u; const char *s; unsigned char b[8]; } val[FLAT_MAX];
+  void *arr[FLAT_MAX]; int cnt[FLAT_MAX]; DBusError err; OutBuf o = { 0 };
+  const char *sig = dbus_message_get_signature (m);
+  if (!sig || !*sig) return 0;
+  n = flat_sig (sig, kinds);
+  if (n <= 0) return 0;
+  memset (val, 0, sizeof val); memset (arr, 0, sizeof arr); memset (cnt, 0, sizeof cnt);
+  for (i = 0; i < n; i++)
+    {
+      if (kinds[i][0] == 'a') { W[nw++] = DBUS_TYPE_ARRAY; W[nw++] = kinds[i][1]; W[nw++] = (long) &arr[i]; W[nw++] = (long) &cnt[i]; }
+      else { W[nw++] = kinds[i][0]; W[nw++] = (long) &val[i]; }
+    }
+  while (nw < 4 * FLAT_MAX + 2) W[nw++] = DBUS_TYPE_INVALID;
+  dbus_error_init (&err);
+  if (!dbus_message_get_args (m, &err, (int) W[0], W[1], W[2], W[3], W[4], W[5], W[6], W[7], W[8], W[9], W[10], W[11], W[12], W[13], W[14], W[15], W[16],
+                              W[17], W[18], W[19], W[20], W[21], W[22], W[23], W[24], W[25], W[26], W[27], W[28], W[29], W[30], W[31], W[32], W[33]))
+    {
+      res = dbus_error_has_name (&err, DBUS_ERROR_NO_MEMORY) ? 3 : 2;
+      dbus_error_free (&err);
+      return res;
+    }
+  for (i = 0; i < n; i++)
+    {
+      if (i) ob_putc (&o, ',');
+      if (kinds[i][0] != 'a') { render_basic (&o, kinds[i][0], &val[i]); continue; }
+      ob_printf (&o, "a%c[", kinds[i][1]);
+      {
+        int k, sz = fixed_size_of_code (kinds[i][1]);
+        for (k = 0; k < cnt[i]; k++)
+          {
+            if (k) ob_putc (&o, ',');
+            if (sz) render_basic (&o, kinds[i][1], (const unsigned char *) arr[i] + (size_t) k * (size_t) sz);
+            else render_basic (&o, kinds[i][1], &((char **) arr[i])[k]);
+          }
+        if (!sz) dbus_free_string_array ((char **) arr[i]);
+      }
+      ob_putc (&o, ']');
+    }
+  res = (o.len == body_len && (body_len == 0 || memcmp (o.s, body_text, body_len) == 0)) ? 1 : 2;
+  if (res == 2) fprintf (stderr, "getargs: iterator view [%.*s] get_args view [%.*s]\n", (int) body_len, body_text, (int) o.len, o.s ? o.s : "");
+  free (o.s);
+  return res;
 }
 
 static void canon_msg (DBusMessage *m, OutBuf *o)
@@ -184,9 +288,15 @@ static void canon_msg (DBusMessage *m, OutBuf *o)
   ob_printf (o, " rserial=%u sig=%s", dbus_message_get_reply_serial (m), dbus_message_get_signature (m));
   canon_str_field (o, "cinst", dbus_message_get_container_instance (m));
   ob_puts (o, " body=[");
-  if (dbus_message_iter_init (m, &it))
-    canon_iter (&it, o);
-  ob_putc (o, ']');
+  {
+    size_t at = o->len; int r;
+    if (dbus_message_iter_init (m, &it))
+      canon_iter (&it, o);
+    r = getargs_crosscheck (m, o->s ? o->s + at : "", o->len - at);
+    if (r == 2) n_getargs_mismatch++;
+    ob_putc (o, ']');
+    if (r == 3) ob_puts (o, " getargs=OOM");
+  }
 }
 
 static void marshal_hex (DBusMessage *m, OutBuf *o)
@@ -217,7 +327,7 @@ static void cmd_demarshal (int argc, char **argv)
   needed = dbus_message_demarshal_bytes_needed ((const char *) buf, (int) n);
   ob_printf (&out, "needed=%d", needed);
   dbus_error_init (&err);
-  n_fixed_mismatch = 0;
+  n_fixed_mismatch = 0; n_getargs_mismatch = 0;
   m = dbus_message_demarshal ((const char *) buf, (int) n, &err);
   if (m && argc > 2 && !strcmp (argv[2], "nocanon"))
     {
@@ -251,7 +361,7 @@ static void cmd_demarshal (int argc, char **argv)
   ob_printf (&out, " ld=%d:%d:%d", popped, _dbus_message_loader_get_is_corrupted (l),
              (int) _dbus_message_loader_get_corruption_reason (l));
   _dbus_message_loader_unref (l);
-  ob_printf (&out, " fixedmismatch=%d", n_fixed_mismatch);
+  ob_printf (&out, " fixedmismatch=%d getargsmismatch=%d", n_fixed_mismatch, n_getargs_mismatch);
   if (c1.len && c2.len) ob_printf (&out, " ldsame=%d", c1.len == c2.len && memcmp (c1.s, c2.s, c1.len) == 0);
   if (c1.len) { ob_puts (&out, " canon="); ob_puts (&out, c1.s); }
   else if (c2.len) { ob_puts (&out, " ldcanon="); ob_puts (&out, c2.s); }
@@ -494,6 +604,64 @@ static int parse_value (Parser *ps, DBusMessageIter *it)
   return 0;
 }
 
+/* arrays mode 'v': a flat body (see flat_sig) is appended with ONE call of dbus_message_append_args(); returns 1 on
+ * success, 0 if the call reported failure, -1 if the body text is not flat (the caller falls back to iterators) */
+static int build_body_varargs (DBusMessage *m, const char *body)
+{
+  Parser ps = { body, 0, 0 }; long W[4 * FLAT_MAX + 2]; int nw = 0, n = 0, i, ret;
+  static dbus_uint64_t val[FLAT_MAX]; char *strs[FLAT_MAX]; void *arrs[FLAT_MAX]; int cnts[FLAT_MAX]; char **sarr[FLAT_MAX]; int isstr[FLAT_MAX];
+  memset (strs, 0, sizeof strs); memset (arrs, 0, sizeof arrs); memset (sarr, 0, sizeof sarr); memset (cnts, 0, sizeof cnts); memset (isstr, 0, sizeof isstr);
+  ret = -1;
+  while (*ps.p && *ps.p != ']')
+    {
+      char c = *ps.p;
+      if (n == FLAT_MAX) goto out;
+      if (c == 'a')
+        {
+          char e = ps.p[1]; int sz = fixed_size_of_code (e); size_t cap = 16, k = 0;
+          if (!e || !strchr ("ybnqiuxtdsog", e) || ps.p[2] != '[') goto out;
+          ps.p += 3;
+          if (sz) arrs[n] = malloc (cap * 8); else { sarr[n] = calloc (cap + 1, sizeof (char *)); isstr[n] = 1; }
+          while (*ps.p && *ps.p != ']')
+            {
+              dbus_uint64_t tmp = 0; char *str = NULL;
+              if (ps.p[0] != e || ps.p[1] != ':') goto out;
+              ps.p += 2;
+              if (!parse_basic_into (&ps, e, &tmp, &str)) goto out;
+              if (k == cap) { cap *= 2; if (sz) arrs[n] = realloc (arrs[n], cap * 8); else { sarr[n] = realloc (sarr[n], (cap + 1) * sizeof (char *)); } }
+              if (sz) memcpy ((unsigned char *) arrs[n] + k * (size_t) sz, &tmp, (size_t) sz); else { sarr[n][k] = str; sarr[n][k + 1] = NULL; }
+              k++;
+              if (*ps.p == ',') ps.p++;
+            }
+          if (*ps.p != ']') goto out;
+          ps.p++;
+          cnts[n] = (int) k;
+          W[nw++] = DBUS_TYPE_ARRAY; W[nw++] = e; W[nw++] = sz ? (long) &arrs[n] : (long) &sarr[n]; W[nw++] = cnts[n];
+        }
+      else
+        {
+          if (!strchr ("ybnqiuxtdsog", c) || ps.p[1] != ':') goto out;
+          ps.p += 2;
+          val[n] = 0;
+          if (!parse_basic_into (&ps, c, &val[n], &strs[n])) goto out;
+          W[nw++] = c; W[nw++] = (long) &val[n];
+        }
+      n++;
+      if (*ps.p == ',') ps.p++;
+    }
+  if (n == 0) goto out;
+  while (nw < 4 * FLAT_MAX + 2) W[nw++] = DBUS_TYPE_INVALID;
+  ret = dbus_message_append_args (m, (int) W[0], W[1], W[2], W[3], W[4], W[5], W[6], W[7], W[8], W[9], W[10], W[11], W[12], W[13], W[14], W[15], W[16],
+                                  W[17], W[18], W[19], W[20], W[21], W[22], W[23], W[24], W[25], W[26], W[27], W[28], W[29], W[30], W[31], W[32], W[33]) ? 1 : 0;
+out:
+  for (i = 0; i < FLAT_MAX; i++)
+    {
+      free (strs[i]); free (arrs[i]);
+      if (sarr[i]) { int k; for (k = 0; sarr[i][k]; k++) free (sarr[i][k]); free (sarr[i]); }
+    }
+  return ret;
+}
+
 /* parse "key=hex" / "key-" fields of a canonical line */
 static char *field_dup (const char *tok)
 {
@@ -606,6 +774,12 @@ static void cmd_build (int argc, char **argv)
         }
     }
   if (serial) dbus_message_set_serial (m, serial);
+  if (body && argv[2][0] == 'v' && !getdel)
+    {
+      int r = build_body_varargs (m, body);
+      if (r == 0) { ob_puts (&out, "ERR body-parse-or-append"); dbus_message_unref (m); goto done; }
+      if (r == 1) body = NULL;        /* appended; r < 0: not a flat body, the iterator route below builds it */
+    }
   if (body)
     {
       Parser ps = { body, fixed, 0 }; DBusMessageIter it; int nvals = 0;
